@@ -49,6 +49,8 @@ def transforms(case, rng):
         # a variable factor must be a free variable of the function itself
         main_src = case.program.source.split('def f(')[-1]
         names = [k for k in ('K2', 'K3') if k in main_src]
+        # ... or an integer argument (positive by construction of the inputs)
+        names += [nm for nm, t in zip(main_src.split(')')[0].split(', '), case.program.arg_types) if t == 'I'] * 2
         factor = rng.choice([1, 2, 3, 4, 5] + names * 2)
         strat = rng.choice([SplitLoopStrategy.PEEL, SplitLoopStrategy.PEEL, SplitLoopStrategy.STRICT])
         out.append((f'split[{strat.name}][factor={factor},where={w}]', lambda w=w, factor=factor, strat=strat: split(f, factor, w, strategy=strat)))
@@ -76,8 +78,8 @@ def shard(i: int, n: int, tier: str, seed: int) -> Result:
     rng = random.Random(seed * 811 + i)
     total = 640 if tier == "quick" else 12000
     prof = prog.profile(w_for=7, w_while=2.5, w_if=2, w_if1=2, w_early_return=2, w_index_assign=3, w_aug=3, w_with=2.5, w_freevar=0.7,
-                        w_copy=0.5, w_const=0.5, hostile_names=HOSTILE, hostile_prob=0.45, shadow_target_prob=0.2, helpers=1,
-                        args=lambda r: r.choice([('R', 'L'), ('R', 'L', 'L'), ('L',), ('R', 'R', 'L'), ('R', 'L', 'LL'), ('I', 'L')]))
+                        w_copy=0.5, w_const=0.5, hostile_names=HOSTILE, hostile_prob=0.45, shadow_target_prob=0.2, helpers=1, loop_writes_int_arg_prob=0.5,
+                        args=lambda r: r.choice([('R', 'L'), ('R', 'L', 'L'), ('L',), ('R', 'R', 'L'), ('R', 'L', 'LL'), ('I', 'L'), ('I', 'R', 'L')]))
     lengths = list(range(0, 10)) + [10, 12, 13, 17]
 
     def inputs(r, p):
